@@ -44,8 +44,8 @@ META['C01'] = dict(
   note=_ENG_NOTE + "Open finding C01-exit-suffix is replayed every run and printed as KNOWN-FINDING.")
 META['C02'] = dict(
   text=("Kernel-checked for all inputs: GetAt never panics (getAt_no_panic), a page past the cursors is an error (past_end_is_error), applyPage adds next exactly on all pages but the last and previous on all but the first "
-        "(next_prev_offered[_fresh]), an index past the page count is the browse error. Completeness of the row grouping is NOT proved: joinSink drops an empty row at a page start and accepts pages the final check rejects — three "
-        "kernel-evaluated negation witnesses, two open known findings. Tie + oracle: the render suite reconstructs the rows from the real pages of every index and checks static parts, next/prev per page and past-the-end; the engine suite walks paginated nodes through the VM (MNEXT/MPREV handlers) and checks that the previous entry is offered on every later page."),
+        "(next_prev_offered[_fresh]), an index past the page count is the browse error; completeness of the row grouping for rows that are not empty: whenever joinSink succeeds, reading the flattened pages back (line feed between pages, NUL between rows) gives exactly the rows, once each, in order, wherever the size arithmetic put the breaks "
+        "(joinSink_complete_partial, by a loop invariant over foldlM). With empty rows the statement is false: joinSink drops an empty row at a page start and accepts pages the final check rejects — three kernel-evaluated negation witnesses, two open known findings. Tie + oracle: the render suite reconstructs the rows from the real pages of every index and checks static parts, next/prev per page and past-the-end; the engine suite walks paginated nodes through the VM (MNEXT/MPREV handlers) and checks that the previous entry is offered on every later page."),
   note=_ENG_NOTE + "pages_partition (complete, once, in order) is left as a documented gap: it is false on the current tree.")
 META['C03'] = dict(
   text=("Kernel-checked for all programs/inputs (Vise/Props/C03.lean): an INCMP that does not match does not move; the first matching INCMP (selector = input, or wildcard while nothing matched) is exactly the move to its target; "
